@@ -1157,6 +1157,9 @@ func runC03(c *fw.Check) {
 		bound = 2
 		c.SetBudget(45 * 60 * 1e9)
 	}
+	if c.Deep() {
+		bound = 3
+	}
 	entries := gen.Catalogue()
 	all, batches := genBatches(entries, bound, 40)
 	c.Rule = fmt.Sprintf("(A) construction programs derived from EVERY variant with <=%d deviations of the generator catalogue over the widened type universe: the parsed module is re-built from scratch through Module.NewGlobal/NewFunc, Func.NewBlock, every Block.NewXxx instruction/terminator constructor and every constant.NewXxx constructor (operands mapped, flags copied by reflection); no constructor may panic on these well-typed operands, the constructed module must print byte-identically to the module it was derived from, and the library must re-parse that text to a structurally identical module; the set of constructors exercised is compared with the list go/types reads from the source. (B) execution: %d-operation integer/compare/select/cast/memory/aggregate/vector alphabet, single operations on 8 input vectors and two-operation chains, plus diamond/loop/switch/call shapes, built through the API, printed, accepted by llvm-as and RUN by lli-14; a reference evaluator written here gives the expected value. distinct = variants + execution tests.", bound, len(c03ops()))
